@@ -20,6 +20,8 @@ func cmdCacheMgr(args []string) {
 	dir := fs.String("dir", os.TempDir(), "scratch directory")
 	maxSize := fs.Int64("maxsize", -1, "cache manager size limit")
 	stepMs := fs.Int("step-ms", 1000, "timeout per step in ms")
+	stress := fs.Int("stress", 0, "instead of behaviours: free-running rounds with every transaction on parallel goroutines")
+	seed := fs.Int64("seed", 1, "seed of the stress rounds")
 	stages := fs.Int("stages", 0, "instead of behaviours: run the stage scenarios (a transaction on several goroutines) this many times")
 	fs.Parse(args)
 	tw, err := trace.NewWriter(*out)
@@ -28,6 +30,19 @@ func cmdCacheMgr(args []string) {
 		os.Exit(2)
 	}
 	defer tw.Close()
+	if *stress > 0 {
+		stuck := 0
+		for i := 0; i < *stress; i++ {
+			if cached.StageStress(i, *seed*100000+int64(i), tw, cached.Opts{StepTimeout: time.Duration(*stepMs) * time.Millisecond, MaxSize: *maxSize}, *dir) {
+				stuck++
+				break
+			}
+		}
+		tw.Flush()
+		res, _ := json.Marshal(map[string]any{"behaviours": *stress, "drifted": 0, "stuck": stuck, "lines": tw.N, "drift_samples": []string{}})
+		fmt.Println(string(res))
+		return
+	}
 	if *stages > 0 {
 		stuck := 0
 		for i := 0; i < *stages; i++ {
